@@ -100,8 +100,13 @@ def run_check(pid, tier, seed, workers, only_unit=None, dump_instances=False, ti
         bounds[name] = bound
         _UNITS[name] = (fn, bound)
     exhaustive = True
+    known0 = findings_mod.load(VERIF)
+
+    def _unlisted(vs):  # violations that are not listed known findings (fail-fast must not stop on a known finding)
+        return [v for v in vs if known0.match(pid, v.sig, v.ihash) is None]
+
     for name, (fn, bound) in list(_UNITS.items()):
-        if _FAILFAST and total.violations:
+        if _FAILFAST and _unlisted(total.violations):
             break
         tu = time.time()
         try:
@@ -121,7 +126,7 @@ def run_check(pid, tier, seed, workers, only_unit=None, dump_instances=False, ti
                             roots.extend(getattr(r, "leftover", []))
                             r.leftover = []
                             res.merge(r)
-                        if _FAILFAST and res.violations:
+                        if _FAILFAST and _unlisted(res.violations):
                             res.notes["cap:failfast"] = 1  # mutation sweeps only: never exhaustive, never evidence
                             roots = []
                         roots.sort()
